@@ -233,6 +233,15 @@ func RunDeterminism(fam *Family, tier, rule string) int {
 		moved := filepath.Join(sc.Dir, "cli", fmt.Sprintf("s%d", si), "a", "very", "different", "place")
 		variant("schema directory moved, relative arguments", moved, false, s.files)
 		variant("schema directory moved, absolute arguments", moved, true, s.files)
+		// directory names with characters that mean something in URLs, file names or shells: the path of the schema
+		// directory must not leak into the output whatever it looks like
+		for hi, hostile := range []string{"rev#2", "is it final?", "v1.2.json", "ünï çødé", "50%20off", "a=b&c"} {
+			hdir := filepath.Join(sc.Dir, "cli", fmt.Sprintf("s%d", si), "hostile", fmt.Sprintf("%d", hi), hostile, "schemas")
+			variant(fmt.Sprintf("schema directory moved below %q, absolute arguments", hostile), hdir, true, s.files)
+			if hi < 2 {
+				variant(fmt.Sprintf("schema directory moved below %q, relative arguments", hostile), hdir, false, s.files)
+			}
+		}
 		for i := 0; i < nPerm; i++ {
 			pf := map[string]string{}
 			for n, c := range s.files {
